@@ -165,7 +165,7 @@ Definition p_octets (sz : size) (bytes : list Z) : penc :=
       else pfail EUnmodelled in
   if size_ext sz then
     if size_in_root sz n then pemit [false] ;; root
-    else pemit [true] ;; palign_e ;; plift (enc_len_single n) ;; pemit data
+    else pemit [true] ;; palign_e ;; p_frag (frag_fuel bytes) (fun b => pemit (to_bits 8 b)) bytes
   else root.
 
 Definition r_octets (sz : size) : reader value :=
@@ -181,7 +181,7 @@ Definition r_octets (sz : size) : reader value :=
         do* bs <- read_n (Z.to_nat (size_lo sz)) read_byte; rret (VBytes bs) in
   if size_ext sz then
     do* b <- read_bit;
-    if b then do* _ <- r_align; do* n <- read_len; do* bs <- read_n (Z.to_nat n) read_byte; rret (VBytes bs)
+    if b then do* _ <- r_align; do* bs <- read_frag_auto read_byte; rret (VBytes bs)
     else normal
   else normal.
 
@@ -441,7 +441,7 @@ Section PComposite.
             else if n =? size_lo sz then elems else pfail EUnmodelled in
         if size_ext sz then
           if size_in_root sz n then pemit [false] ;; root
-          else pemit [true] ;; palign_e ;; plift (enc_len_single n) ;; elems
+          else pemit [true] ;; palign_e ;; p_frag (frag_fuel vs) (encT elem) vs
         else root
       | _ => pfail EUnmodelled
       end.
@@ -456,7 +456,7 @@ Section PComposite.
           else do* vs <- read_n (Z.to_nat (size_lo sz)) (decT elem); rret (VList vs) in
       if size_ext sz then
         do* b <- read_bit;
-        if b then do* _ <- r_align; do* n <- read_len; do* vs <- read_n (Z.to_nat n) (decT elem); rret (VList vs)
+        if b then do* _ <- r_align; do* vs <- read_frag_auto (decT elem); rret (VList vs)
         else normal
       else normal.
 
